@@ -4,8 +4,9 @@
 alphabet (fixed size, the three padding residues, remainder member, LinMessage2 v1/v2/v3, the three serial-event
 variants, an object of five containers, an empty payload, a restore-point container), written through File and
 read back through File for compression levels 0..9 x 18 container sizes x restore points on/off; every session
-runs under the deterministic scheduler's default schedule.  Oracle: class, type code and every reflected field
-of each object read back equal the codec-level decode of the object's encoding; then null, eof(), !good().
+runs under the deterministic scheduler's default schedule.  Oracle: class, type code and every field of each object
+read back that is part of its value (serialised by this variant according to the encoder's layout map, plus the layout
+selectors apiMajor / *_present) equal the ORIGINAL object as it was after write()'s pre-processing; then null, eof(), !good().
 The codec-level round trip itself (decode(encode(x)) preserves every serialised field; every field is serialised
 by some object) is checked on all of U."""
 import time
